@@ -144,9 +144,9 @@ fn run_fixed(ctx: &mut Ctx, h: H) {
     // in circuit
     let lens: Vec<usize> = if ctx.quick() {
         match h {
-            H::Sha256 => vec![0, 1, 55, 56, 63, 64, 119, 120],
-            H::Sha512 => vec![0, 111, 112, 128],
-            H::Rmd160 => vec![0, 55, 56, 64],
+            H::Sha256 => boundary_lengths(b, l, 2),
+            H::Sha512 => vec![0, 1, 110, 111, 112, 113, 119, 120, 127, 128, 129, 239, 240],
+            H::Rmd160 => boundary_lengths(b, l, 1).into_iter().chain([119, 120, 128]).collect(),
         }
     } else {
         boundary_lengths(b, l, 3)
@@ -210,10 +210,10 @@ fn run_varlen(ctx: &mut Ctx) {
         varlen_case::<M>(ctx, &data, filler);
     }
     if ctx.quick() {
-        for (len, f) in [(0usize, 0xa5u8), (1, 0), (55, 0x80), (56, 0xff), (64, 0x80), (65, 0xa5), (120, 0x80), (128, 0xff)] {
-            one::<128>(ctx, &mut rng, len, f);
+        for (i, len) in [0usize, 1, 2, 54, 55, 56, 57, 62, 63, 64, 65, 66, 118, 119, 120, 121, 126, 127, 128].into_iter().enumerate() {
+            one::<128>(ctx, &mut rng, len, [0xa5u8, 0x80, 0xff, 0x00, 0x01][i % 5]);
         }
-        for (len, f) in [(0usize, 0xffu8), (63, 0x80), (64, 0x01)] {
+        for (len, f) in [(0usize, 0xffu8), (1, 0x80), (55, 0x80), (56, 0xa5), (63, 0x80), (64, 0x01)] {
             one::<64>(ctx, &mut rng, len, f);
         }
     } else {
